@@ -161,6 +161,17 @@ _lib.delitem = _delitem
 _orig_lookup_function = _lib.lookup_function
 
 
+def _ranged(it, fmt, tup):
+    """instantiated lemma: an unsigned field of w bytes read from a bytes value is in 0 .. 256^w - 1 (bytes are strings over 0..255)"""
+    fields = [f for f in _lib.struct_fields(fmt) if isinstance(f, str)]
+    vals = [v for v in tup.items if isinstance(v, SInt)]
+    for f, v in zip(fields, vals):
+        if v.concrete() is None:
+            it.ex.assume(z3.And(v.t >= 0, v.t < 256 ** _lib.STRUCT_SIZES[f]))
+    it.ex.note("lemma", "bytes-range: an unsigned w-byte field unpacked from bytes is in 0..256^w-1 (instantiated per unpack)")
+    return tup
+
+
 def _lookup_function(o):
     r = _orig_lookup_function(o)
     if r is not None:
@@ -172,10 +183,10 @@ def _lookup_function(o):
 
         def m(it, *args, **kwargs):
             if name == "unpack":
-                return _lib.struct_unpack(it, fmt, it.resolve(args[0]), exact=True)
+                return _ranged(it, fmt, _lib.struct_unpack(it, fmt, it.resolve(args[0]), exact=True))
             if name == "unpack_from":
                 off = it.resolve(args[1]) if len(args) > 1 else it.resolve(kwargs.get("offset", SInt(0)))
-                return _lib.struct_unpack(it, fmt, it.resolve(args[0]), exact=False, offset=off)
+                return _ranged(it, fmt, _lib.struct_unpack(it, fmt, it.resolve(args[0]), exact=False, offset=off))
             return _lib.struct_pack(it, fmt, [it.resolve(a) for a in args])
 
         m.__name__ = f"Struct({fmt!r}).{name}"
@@ -361,3 +372,43 @@ def _encode(it, s, *a, **k):
 
 
 METHODS[(SStr, "encode")] = _encode
+
+
+# native oracles (only used to pick replayable models / conformance samples, never for proving)
+def _o_bytes(s):
+    return bytes(min(ord(c), 255) for c in s)
+
+
+def _o_dec_status(s):
+    try:
+        _o_bytes(s).decode("idna")
+        return 0
+    except UnicodeDecodeError:
+        return 1
+    except UnicodeError:
+        return 2
+
+
+def _o_dec(s):
+    try:
+        return _o_bytes(s).decode("idna")
+    except UnicodeError:
+        return ""
+
+
+def _o_enc_ok(s):
+    try:
+        s.encode("idna")
+        return True
+    except UnicodeError:
+        return False
+
+
+def _o_enc(s):
+    try:
+        return s.encode("idna")
+    except UnicodeError:
+        return b""
+
+
+_lib.UF_ORACLES.update({"idna_dec_status": _o_dec_status, "dec_idna": _o_dec, "idna_encodable": _o_enc_ok, "enc_idna": _o_enc})
